@@ -50,6 +50,10 @@ CLAIMS["C13"] = ("books-twin analysis (custody movement vs book update, expressi
     "Static decision of the bookkeeping shape: locker handlers move coins together with NetBalance and the deposited total for the very same amount, releases are bounded by the balance, no stale locker copy is written back after the savings calculation; every movement out of (into) the collector custody, anywhere in the repository (25 sites), is on a path with a successful decrease (increase) of the recorded net fees for the same amount, the book update being accepted before a failure can be swallowed; the decrease cannot store a negative balance. NOT covered: the numeric identities custody >= sum of books, savings-rate arithmetic.",
     "DESIGN.md §3 C13")
 
+CLAIMS["C17"] = ("must-pass guards on price reads and on activation stores; wrap-test edge classification (finite orderings) between cursor increment and store; accumulation-type rule",
+    "Static decision of the structural part of the oracle pipeline: the market keeper's valuation API reads the stored price only under found && IsPriceActive and errors otherwise; IsPriceActive becomes true only behind a window-full comparison; after each cursor increment the record is stored only behind a wrap test whose outcomes are index < N or index >= N with reset (so an off-by-one `>` is reported); the window is emptied only together with cursor reset and deactivation; the window sum is not accumulated in a fixed-width integer. Holds for every sample sequence because it is decided on all paths. NOT covered: that the published value equals the integer mean for every sequence; N = 0.",
+    "DESIGN.md §3 C17")
+
 NOT_APPLICABLE = {
     "C18": "purely numeric relations between evaluations of accrual/rate functions (non-negativity, monotonicity, sub-additivity, continuity; one path through float64 math.Pow); no guard, pairing, provenance or ordering is a necessary condition of them, so no sound static argument in reach applies (DESIGN.md §3 C18, §4).",
 }
